@@ -306,7 +306,7 @@ def _c11_callables(shape, entered):
     out = []
     for (form, c, desc) in S.make_callables(shape, entered, partials=True):
         nfixed = 0
-        if form == 'partial':
+        if form.startswith('partial'):
             if c.keywords:
                 continue            # partials that fix keywords re-order the visible signature: outside this scope
             nfixed = len(c.args)
@@ -383,7 +383,8 @@ def _c11_decorator_level(out, seen, c, desc, spec, calls, shape, pnames, mode, i
     import klepto
     from klepto.keymaps import keymap as rawmap
     try:
-        w = klepto.inf_cache(ignore=spec, keymap=rawmap(flat=False))(c)
+        # a single selector may be given bare (ignore=0, ignore='a') instead of as a tuple
+        w = klepto.lru_cache(ignore=spec[0] if len(spec) == 1 else spec, keymap=rawmap(flat=False))(c)
     except Exception as e:      # noqa
         _viol(out, seen, 'decorator_total', 'decorating raises %s; ignore=%r' % (e.__class__.__name__, spec), '%s: inf_cache(ignore=%r) raised %r' % (desc, spec, e),
               {'prop': 'C11', 'mode': mode, 'shape': idx, 'callable': ci, 'spec': list(spec), 'desc': desc, 'kind': 'decorator'})
